@@ -396,10 +396,17 @@ func (g *c17Gen) template() string {
 
 func (g *c17Gen) context() ([]string, []string) {
 	r := g.r
-	n := r.Intn(4)
+	n := 3
+	if r.Chance(1, 6) {
+		n = r.Intn(3)
+	}
 	elems := make([]string, n)
 	for i := range elems {
-		switch r.Intn(4) {
+		kind := r.Intn(4)
+		if r.Chance(2, 3) {
+			kind = i // {0}: an array, {1}: something to split, {2}: a number
+		}
+		switch kind {
 		case 0: // an array handed in by the match
 			elems[i] = strings.Join(g.list(), "\x00")
 		case 1: // something to split
